@@ -158,7 +158,7 @@ def overlap_classify(clause, draws, obs):
 # ------------------------------------------------------------------ B-tree
 def btree_sequential(sym, tier):
     r = Result()
-    n = 5 if tier == "quick" else 6
+    n = 5
     bt = BTree("bt", order=3)
     keys = ["a", "b", "c", "d"]
     model = {}
@@ -227,7 +227,7 @@ HARNESSES = [
       cubes=lambda tier: [{"key0": a, "key1": b} for a in range(4) for b in range(4)],
       require=lambda tier: ["node_split"], classify=classify,
       functions=["BTree.put/get/get_sync/delete/scan/_insert/_insert_non_full/_split_child/_delete/_scan_node"],
-      bounds=lambda tier: {"order": 3, "ops": 5 if tier == "quick" else 6, "keys": 4, "values": "symbolic [1,9]"},
+      bounds=lambda tier: {"order": 3, "ops": 5, "keys": 4, "values": "symbolic [1,9]"},
       outside=["overlapping B-tree operations in simulated time", "orders other than 3"]),
 ]
 
